@@ -147,7 +147,6 @@ class ControllerApplication:
         if self._device_address_state == ControllerApplication.State.NONE:
             if self._device_address_preferred != None:
                 self._device_address_announced = self._device_address_preferred
-                self._send_address_claimed(self._device_address_announced)
                 if self._device_address_announced > 127 and self._device_address_announced < 248:
                     self._device_address_state = ControllerApplication.State.WAIT_VETO
                     time_to_sleep = ControllerApplication.ClaimTimeout.VETO
@@ -155,6 +154,9 @@ class ControllerApplication:
                     # addresses from 0..127 and 248..253 should start immediately
                     self._device_address = self._device_address_announced
                     self._device_address_state = ControllerApplication.State.NORMAL
+                # the state is set before the claim goes out: a contender's answer may be
+                # processed before the sending call has returned
+                self._send_address_claimed(self._device_address_announced)
         elif self._device_address_state == ControllerApplication.State.WAIT_VETO:
             # if we reach this phase, there was no VETO to our address claimed message so far
             self._device_address = self._device_address_announced
